@@ -284,6 +284,12 @@ pub trait Sys {
     fn state(&self) -> State;
     fn getters(&self) -> Getters;
     fn dead(&self) -> bool;
+    /// The state of the specification-side monitor (documented ratio pair, chunk size). The
+    /// search runs on the product of implementation state and monitor state: two histories that
+    /// leave the implementation in the same state but the specification in different ones are
+    /// different states (otherwise a wrong transition could hide behind a legitimate history
+    /// that happens to reach the same implementation state).
+    fn spec_key(&self) -> u64;
 }
 
 impl<T: Flt> Sys for Tracked<T> {
@@ -301,6 +307,13 @@ impl<T: Flt> Sys for Tracked<T> {
     }
     fn dead(&self) -> bool {
         self.run.dead
+    }
+    fn spec_key(&self) -> u64 {
+        let mut h = rubato::verif::Hasher::default();
+        h.word(self.trk.r_cur.to_bits());
+        h.word(self.trk.r_tgt.to_bits());
+        h.word(self.trk.chunk as u64);
+        h.0
     }
 }
 
@@ -334,7 +347,7 @@ pub fn explore_sys(spec: &Spec, make: Factory, journal: Journal) -> Result<Outco
         let mut steps = 0usize;
         loop {
             let st = live.state();
-            let key = fp_ctrl(&st);
+            let key = fp_ctrl(&st) ^ live.spec_key().rotate_left(17);
             if !seen.insert(key) {
                 out.closed += 1;
                 break;
@@ -417,7 +430,7 @@ pub fn explore_sys(spec: &Spec, make: Factory, journal: Journal) -> Result<Outco
                         }
                         continue;
                     }
-                    let k2 = fp_ctrl(&side.state());
+                    let k2 = fp_ctrl(&side.state()) ^ side.spec_key().rotate_left(17);
                     if k2 != key {
                         out.effective_deviations += 1;
                     }
